@@ -240,6 +240,9 @@ func (r *runner) writeReplayFull(prop string, leg *Leg, seed uint64, tape []int3
 	rf.Violation.Message = v.Msg
 	rf.Violation.Sig = v.sig()
 	dir := filepath.Join(verifDir(), "replays")
+	if d := os.Getenv("VERIF_REPLAY_DIR"); d != "" {
+		dir = d
+	}
 	os.MkdirAll(dir, 0o755)
 	h := uint32(2166136261)
 	for _, c := range []byte(v.sig()) {
